@@ -200,6 +200,7 @@ func reportFaults(c *fw.Ctx, k cfg, worlds []*world) {
 			l = append(l, s)
 		}
 		sort.Strings(l)
+		c.Unit() // a second, independently judged aspect of the same history
 		c.NonTrivial(fmt.Sprintf("fault|%s|%v", k, l))
 	}
 }
